@@ -114,9 +114,9 @@ func checkC18(c *km.Ctx) {
 	r.NotDecided = []string{"the browser's HTML tokenizer view of each page", "html/template's own contextual escaping (trusted)"}
 	r.Assume = []string{"html/template escapes every non-trusted value contextually", "http.Error sets text/plain and X-Content-Type-Options: nosniff", "go/types + go/ssa model the source faithfully"}
 
-	r.Rule("R-C18-1", "every conversion to a trusted-markup type has an operand whose non-constant origins are all HTML-escaped or alphabet-safe", 3)
-	r.Rule("R-C18-2", "pages are rendered by html/template only: every Execute/ExecuteTemplate into an http.ResponseWriter is html/template's; text/template writes only to non-HTTP writers; template function maps return no trusted-markup type", 9)
-	r.Rule("R-C18-3", "every direct response-body write is http.Error, or follows a non-HTML Content-Type set in the same function, or writes a constant / numeric-prefixed line, or server-produced key/certificate material", 15)
+	r.Rule("R-C18-1", "every conversion to a trusted-markup type has an operand whose non-constant origins are all HTML-escaped or alphabet-safe", 1)
+	r.Rule("R-C18-2", "pages are rendered by html/template only: every Execute/ExecuteTemplate into an http.ResponseWriter is html/template's; text/template writes only to non-HTTP writers; template function maps return no trusted-markup type", 4)
+	r.Rule("R-C18-3", "every direct response-body write is http.Error, or follows a non-HTML Content-Type set in the same function, or writes a constant / numeric-prefixed line, or server-produced key/certificate material", 9)
 
 	// ---------- R-C18-1
 	n := 0
